@@ -181,9 +181,9 @@ Lemma handler_pass_refused fuel nw w d w' :
   amem d (f_devs w) = true -> d_waiting_ds (getd w' d) = true.
 Proof.
   unfold handler_pass. intros H O OP M. destruct (d_out (getd w d)) as [it|]; [|congruence]. rewrite OP in H. cbn [negb] in H.
-  pose proof (R_try_downstream nw fuel w d it) as RT.
+  pose proof (R_try_downstream nw MFull fuel w d it ltac:(discriminate)) as RT.
   destruct (try_downstream fuel nw w d it) as [w1 ok]. cbn [fst] in RT. destruct ok; [discriminate|].
-  injection H as <-. rewrite getd_updd, Z.eqb_refl. rewrite (R_amem nw w w1 RT d), M. reflexivity.
+  injection H as <-. rewrite getd_updd, Z.eqb_refl. rewrite (R_amem nw MFull w w1 RT d), M. reflexivity.
 Qed.
 
 (** ... and a waiting operational device that is told about space downstream schedules a new attempt at this very instant *)
@@ -229,7 +229,7 @@ Proof.
   unfold failf. destruct (_ =? 0); eexists; cbn; reflexivity.
 Qed.
 
-Lemma wstep_out_ext nw w w' : wstep nw w w' -> out_ext w w'.
+Lemma wstep_out_ext n nw w w' : wstep n nw w w' -> out_ext w w'.
 Proof.
   intro S. destruct S; try (exists []; reflexivity).
   - exists [c]. reflexivity.
@@ -240,7 +240,7 @@ Proof.
   - destruct (out_ext_rm_call w (release_obj nw i None)) as [l Hl]. exists l. exact Hl.
 Qed.
 
-Theorem R_out_ext nw w w' : R nw w w' -> out_ext w w'.
+Theorem R_out_ext n nw w w' : R n nw w w' -> out_ext w w'.
 Proof.
   induction 1 as [|w1 w2 w3 S _ IH]; [apply out_ext_refl|]. eapply out_ext_trans; [eapply wstep_out_ext; eauto|exact IH].
 Qed.
@@ -266,6 +266,6 @@ Lemma fail_record nw w d :
 Proof.
   intro K. unfold fail, is_processor. rewrite K. cbn [negb].
   match goal with |- context[shutdown nw true ?lost ?w3 d] =>
-    destruct (R_out_ext nw w3 (shutdown nw true lost w3 d) (R_shutdown nw true lost w3 d)) as [l H] end.
+    destruct (R_out_ext MNeutral nw w3 (shutdown nw true lost w3 d) (R_shutdown nw MNeutral true lost w3 d)) as [l H] end.
   exists l. rewrite H. reflexivity.
 Qed.
